@@ -808,7 +808,15 @@ def derivers(unit):
             if d_ is None:
                 continue
             ins = set()
-            for c in X.calls_in(x["ch"][1]):
+            rhs_ = x["ch"][1]
+            r0_ = X.strip(rhs_)
+            if r0_ is not None and r0_.get("k") == "ref" and r0_.get("rk") == "local":
+                # the computed value first held in a local (compiled = compile(..); self->data = compiled;)
+                ds_ = [y["ch"][1] for y in walk(g.body) if y.get("k") == "assign" and y.get("op") == "=" and (X.strip(y["ch"][0]) or {}).get("d") == r0_["d"]]
+                ds_ += [dc["init"] for y in walk(g.body) if y.get("k") == "decl" for dc in y.get("decls", ()) if dc["d"] == r0_["d"] and dc.get("init") is not None]
+                if len(ds_) == 1:
+                    rhs_ = ds_[0]
+            for c in X.calls_in(rhs_):
                 if (X.callee_name(c) or "") in ALLOC_LIKE or (X.callee_name(c) or "") in PURE_LIBC:
                     continue        # storage sized by a field / a value libc reads off a field is not a compiled form of it
                 for a in c["ch"][1:]:
